@@ -218,6 +218,176 @@ pub broadcast proof fn lemma_popped_mk(l: u32, a: Tree, b: Tree, until: int)
 pub broadcast group quant_lemmas { lemma_qsem_upd, lemma_sem_upd, lemma_qsem_mk, lemma_qsem_vs_mk, lemma_qsem_vs_leaf, lemma_qsem_const, lemma_popped, lemma_popped_ok, lemma_popped_wf, lemma_popped_mk }
 
 
+pub open spec fn aq_decode(o: u8) -> Option<(u8, u8)> {
+    if o == BDDOp::ForallAnd as u8 { Some((BDDOp::And as u8, BDDOp::And as u8)) }
+    else if o == BDDOp::ForallOr as u8 { Some((BDDOp::And as u8, BDDOp::Or as u8)) }
+    else if o == BDDOp::ForallNand as u8 { Some((BDDOp::And as u8, BDDOp::Nand as u8)) }
+    else if o == BDDOp::ForallNor as u8 { Some((BDDOp::And as u8, BDDOp::Nor as u8)) }
+    else if o == BDDOp::ForallXor as u8 { Some((BDDOp::And as u8, BDDOp::Xor as u8)) }
+    else if o == BDDOp::ForallEquiv as u8 { Some((BDDOp::And as u8, BDDOp::Equiv as u8)) }
+    else if o == BDDOp::ForallImp as u8 { Some((BDDOp::And as u8, BDDOp::Imp as u8)) }
+    else if o == BDDOp::ForallImpStrict as u8 { Some((BDDOp::And as u8, BDDOp::ImpStrict as u8)) }
+    else if o == BDDOp::ExistsAnd as u8 { Some((BDDOp::Or as u8, BDDOp::And as u8)) }
+    else if o == BDDOp::ExistsOr as u8 { Some((BDDOp::Or as u8, BDDOp::Or as u8)) }
+    else if o == BDDOp::ExistsNand as u8 { Some((BDDOp::Or as u8, BDDOp::Nand as u8)) }
+    else if o == BDDOp::ExistsNor as u8 { Some((BDDOp::Or as u8, BDDOp::Nor as u8)) }
+    else if o == BDDOp::ExistsXor as u8 { Some((BDDOp::Or as u8, BDDOp::Xor as u8)) }
+    else if o == BDDOp::ExistsEquiv as u8 { Some((BDDOp::Or as u8, BDDOp::Equiv as u8)) }
+    else if o == BDDOp::ExistsImp as u8 { Some((BDDOp::Or as u8, BDDOp::Imp as u8)) }
+    else if o == BDDOp::ExistsImpStrict as u8 { Some((BDDOp::Or as u8, BDDOp::ImpStrict as u8)) }
+    else if o == BDDOp::UniqueAnd as u8 { Some((BDDOp::Xor as u8, BDDOp::And as u8)) }
+    else if o == BDDOp::UniqueOr as u8 { Some((BDDOp::Xor as u8, BDDOp::Or as u8)) }
+    else if o == BDDOp::UniqueNand as u8 { Some((BDDOp::Xor as u8, BDDOp::Nand as u8)) }
+    else if o == BDDOp::UniqueNor as u8 { Some((BDDOp::Xor as u8, BDDOp::Nor as u8)) }
+    else if o == BDDOp::UniqueXor as u8 { Some((BDDOp::Xor as u8, BDDOp::Xor as u8)) }
+    else if o == BDDOp::UniqueEquiv as u8 { Some((BDDOp::Xor as u8, BDDOp::Equiv as u8)) }
+    else if o == BDDOp::UniqueImp as u8 { Some((BDDOp::Xor as u8, BDDOp::Imp as u8)) }
+    else if o == BDDOp::UniqueImpStrict as u8 { Some((BDDOp::Xor as u8, BDDOp::ImpStrict as u8)) }
+    else { None }
+}
+
+pub proof fn lemma_qsem2_agree(q: u8, op: u8, f: Tree, g: Tree, vs: Tree, e1: Env, e2: Env)
+    requires wf(f), wf(g), agree_from(e1, e2, top(f)), agree_from(e1, e2, top(g)),
+    ensures qsem2(q, op, f, g, vs, e1) == qsem2(q, op, f, g, vs, e2),
+    decreases vs,
+{
+    match vs {
+        Tree::Leaf(_) => { lemma_sem_agree(f, e1, e2); lemma_sem_agree(g, e1, e2); }
+        Tree::Inner(l, a, _) => {
+            lemma_qsem2_agree(q, op, f, g, *a, upd(e1, l as int, true), upd(e2, l as int, true));
+            lemma_qsem2_agree(q, op, f, g, *a, upd(e1, l as int, false), upd(e2, l as int, false));
+        }
+    }
+}
+pub broadcast proof fn lemma_qsem2_upd(q: u8, op: u8, f: Tree, g: Tree, vs: Tree, env: Env, l: int, b: bool)
+    requires wf(f), wf(g), l < top(f), l < top(g),
+    ensures #[trigger] qsem2(q, op, f, g, vs, upd(env, l, b)) == qsem2(q, op, f, g, vs, env),
+{
+    lemma_qsem2_agree(q, op, f, g, vs, upd(env, l, b), env);
+}
+pub broadcast proof fn lemma_qsem2_vs_mk(q: u8, op: u8, f: Tree, g: Tree, l: u32, a: Tree, b: Tree, env: Env)
+    ensures #[trigger] qsem2(q, op, f, g, mk(l, a, b), env) == op_sem(q, qsem2(q, op, f, g, a, upd(env, l as int, true)), qsem2(q, op, f, g, a, upd(env, l as int, false))),
+{}
+pub broadcast proof fn lemma_qsem2_vs_leaf(q: u8, op: u8, f: Tree, g: Tree, b: bool, env: Env)
+    ensures #[trigger] qsem2(q, op, f, g, Tree::Leaf(b), env) == op_sem(op, sem(f, env), sem(g, env)),
+{}
+/// Shannon expansion of the first operand (its top level is above the second operand and above all quantified variables)
+pub broadcast proof fn lemma_qsem2_mk_f(q: u8, op: u8, l: u32, a: Tree, b: Tree, g: Tree, vs: Tree, env: Env)
+    requires wf(vs), (l as int) < top(vs), wf(g), (l as int) < top(g),
+    ensures #[trigger] qsem2(q, op, mk(l, a, b), g, vs, env) == (if env(l as int) { qsem2(q, op, a, g, vs, env) } else { qsem2(q, op, b, g, vs, env) }),
+    decreases vs,
+{
+    match vs {
+        Tree::Leaf(_) => { lemma_sem_agree(g, env, env); }
+        Tree::Inner(k, va, _) => {
+            lemma_qsem2_mk_f(q, op, l, a, b, g, *va, upd(env, k as int, true));
+            lemma_qsem2_mk_f(q, op, l, a, b, g, *va, upd(env, k as int, false));
+        }
+    }
+}
+pub broadcast proof fn lemma_qsem2_mk_g(q: u8, op: u8, f: Tree, l: u32, c: Tree, d: Tree, vs: Tree, env: Env)
+    requires wf(vs), (l as int) < top(vs), wf(f), (l as int) < top(f),
+    ensures #[trigger] qsem2(q, op, f, mk(l, c, d), vs, env) == (if env(l as int) { qsem2(q, op, f, c, vs, env) } else { qsem2(q, op, f, d, vs, env) }),
+    decreases vs,
+{
+    match vs {
+        Tree::Leaf(_) => {}
+        Tree::Inner(k, va, _) => {
+            lemma_qsem2_mk_g(q, op, f, l, c, d, *va, upd(env, k as int, true));
+            lemma_qsem2_mk_g(q, op, f, l, c, d, *va, upd(env, k as int, false));
+        }
+    }
+}
+pub broadcast proof fn lemma_qsem2_mk_fg(q: u8, op: u8, l: u32, a: Tree, b: Tree, l2: u32, c: Tree, d: Tree, vs: Tree, env: Env)
+    requires wf(vs), (l as int) < top(vs), l == l2,
+    ensures #[trigger] qsem2(q, op, mk(l, a, b), mk(l2, c, d), vs, env) == (if env(l as int) { qsem2(q, op, a, c, vs, env) } else { qsem2(q, op, b, d, vs, env) }),
+    decreases vs,
+{
+    match vs {
+        Tree::Leaf(_) => {}
+        Tree::Inner(k, va, _) => {
+            lemma_qsem2_mk_fg(q, op, l, a, b, l2, c, d, *va, upd(env, k as int, true));
+            lemma_qsem2_mk_fg(q, op, l, a, b, l2, c, d, *va, upd(env, k as int, false));
+        }
+    }
+}
+pub broadcast proof fn lemma_popped2(q: u8, op: u8, f: Tree, g: Tree, vs: Tree, until: int, env: Env)
+    requires q == BDDOp::And as u8 || q == BDDOp::Or as u8, wf(f), wf(g), until <= top(f), until <= top(g),
+    ensures qsem2(q, op, f, g, #[trigger] popped(vs, until), env) == #[trigger] qsem2(q, op, f, g, vs, env),
+    decreases vs,
+{
+    match vs {
+        Tree::Leaf(_) => {}
+        Tree::Inner(l, a, _) => {
+            if (l as int) < until {
+                lemma_popped2(q, op, f, g, *a, until, env);
+                lemma_qsem2_agree(q, op, f, g, *a, upd(env, l as int, true), env);
+                lemma_qsem2_agree(q, op, f, g, *a, upd(env, l as int, false), env);
+            }
+        }
+    }
+}
+/// unique quantification of a variable that occurs in neither operand yields false
+pub broadcast proof fn lemma_qsem2_xor_above(q: u8, op: u8, f: Tree, g: Tree, l: u32, a: Tree, b: Tree, env: Env)
+    requires q == BDDOp::Xor as u8, wf(f), wf(g), (l as int) < top(f), (l as int) < top(g),
+    ensures #[trigger] qsem2(q, op, f, g, mk(l, a, b), env) == false,
+{
+    lemma_qsem2_agree(q, op, f, g, a, upd(env, l as int, true), upd(env, l as int, false));
+}
+pub broadcast proof fn lemma_qsem_xor_above(q: u8, t: Tree, l: u32, a: Tree, b: Tree, env: Env)
+    requires q == BDDOp::Xor as u8, wf(t), (l as int) < top(t),
+    ensures #[trigger] qsem(q, t, mk(l, a, b), env) == false,
+{
+    lemma_qsem_agree(q, t, a, upd(env, l as int, true), upd(env, l as int, false));
+}
+pub broadcast proof fn lemma_qsem2_comm(q: u8, op: u8, f: Tree, g: Tree, vs: Tree, env: Env)
+    requires commutative(op),
+    ensures #[trigger] qsem2(q, op, f, g, vs, env) == qsem2(q, op, g, f, vs, env),
+    decreases vs,
+{
+    match vs {
+        Tree::Leaf(_) => {}
+        Tree::Inner(l, a, _) => {
+            lemma_qsem2_comm(q, op, f, g, *a, upd(env, l as int, true));
+            lemma_qsem2_comm(q, op, f, g, *a, upd(env, l as int, false));
+        }
+    }
+}
+/// "apply_Q(op, f, g, vars) equals the plain operator followed by the quantification"
+pub broadcast proof fn lemma_qsem_link(q: u8, op: u8, h: Tree, f: Tree, g: Tree, vs: Tree, env: Env)
+    requires forall|e: Env| #[trigger] sem(h, e) == op_sem(op, sem(f, e), sem(g, e)),
+    ensures #[trigger] qsem(q, h, vs, env) == #[trigger] qsem2(q, op, f, g, vs, env),
+    decreases vs,
+{
+    match vs {
+        Tree::Leaf(_) => {}
+        Tree::Inner(l, a, _) => {
+            lemma_qsem_link(q, op, h, f, g, *a, upd(env, l as int, true));
+            lemma_qsem_link(q, op, h, f, g, *a, upd(env, l as int, false));
+        }
+    }
+}
+pub broadcast group quant2_lemmas { lemma_qsem2_upd, lemma_qsem2_vs_mk, lemma_qsem2_vs_leaf, lemma_qsem2_mk_f, lemma_qsem2_mk_g, lemma_qsem2_mk_fg,
+    lemma_popped2, lemma_qsem2_xor_above, lemma_qsem_xor_above, lemma_qsem2_comm, lemma_qsem_link }
+
+// ---------- substitution (C04) ----------
+pub open spec fn eviews<E: Edge>(s: Seq<E>) -> Seq<Tree> { s.map_values(|e: E| e.view()) }
+/// environment in which every level `i < s.len()` takes the value of its replacement function (simultaneous substitution)
+pub open spec fn senv(s: Seq<Tree>, env: Env) -> Env { |i: int| if 0 <= i < s.len() { sem(s[i], env) } else { env(i) } }
+pub open spec fn all_ok<E: Edge>(s: Seq<E>, n: int) -> bool { forall|i: int| 0 <= i < s.len() ==> ok((#[trigger] s[i]).view(), n) }
+pub open spec fn subst_post(f: Tree, s: Seq<Tree>, n: int, r: Tree) -> bool {
+    ok(r, n) && forall|env: Env| #[trigger] sem(r, env) == sem(f, senv(s, env))
+}
+/// the substitution registered under a substitution id (ASSUMED: ids are unique per substitution object, a fact about the
+/// global call history; `new_substitution_id` hands out fresh ids)
+pub uninterp spec fn subst_of(id: u32) -> Seq<Tree>;
+pub broadcast proof fn lemma_senv_above(t: Tree, s: Seq<Tree>, env: Env)
+    requires wf(t), top(t) >= s.len(),
+    ensures #[trigger] sem(t, senv(s, env)) == sem(t, env),
+{
+    lemma_sem_agree(t, senv(s, env), env);
+}
+pub broadcast group subst_lemmas { lemma_senv_above }
 
 // ---------- restrict (C04): cofactor w.r.t. a partial assignment given as a cube ----------
 pub open spec fn next_cube(a: Tree, b: Tree) -> Tree { if a == Tree::Leaf(false) { b } else { a } }
@@ -370,7 +540,11 @@ impl<'a, M: Manager> EdgeDropGuard<'a, M> {
     pub fn into_edge(self) -> (r: M::Edge) ensures r.view() == self.edge.view() { self.edge }
     pub fn borrowed(&self) -> (r: Borrowed<'_, M::Edge>) ensures r.view() == self.edge.view() { &self.edge }
 }
-pub trait CacheOp: Copy { spec fn inv(self, operands: Seq<Tree>, n: int, res: Tree) -> bool; }
+pub trait CacheOp: Copy {
+    spec fn inv(self, operands: Seq<Tree>, n: int, res: Tree) -> bool;
+    /// keys with numeric operands / several values
+    spec fn inv_ext(self, operands: Seq<Tree>, nums: Seq<u32>, n: int, res: Seq<Tree>, res_nums: Seq<u32>) -> bool;
+}
 pub open spec fn views<E: Edge>(s: Seq<&E>) -> Seq<Tree> { s.map_values(|e: &E| e.view()) }
 /// ASSUMED apply-cache contract: `get` may answer anything that was (or could
 /// have been) added under exactly this operator and these operands; `add`
@@ -380,7 +554,16 @@ pub trait ApplyCache<M: Manager, O: CacheOp> {
         ensures match r { Some(h) => operator.inv(views(operands@), manager.num_levels_spec(), h.view()), None => true };
     fn add(&self, manager: &M, operator: O, operands: &[Borrowed<M::Edge>], value: Borrowed<M::Edge>)
         requires operator.inv(views(operands@), manager.num_levels_spec(), value.view());
+    fn get_extended<const E: usize, const N: usize>(&self, manager: &M, operator: O, operands: (&[Borrowed<M::Edge>], &[u32])) -> (r: Option<([M::Edge; E], [u32; N])>)
+        ensures match r { Some(v) => operator.inv_ext(views(operands.0@), operands.1@, manager.num_levels_spec(), eviews(v.0@), v.1@), None => true };
+    fn add_extended(&self, manager: &M, operator: O, operands: (&[Borrowed<M::Edge>], &[u32]), values: (&[Borrowed<M::Edge>], &[u32]))
+        requires operator.inv_ext(views(operands.0@), operands.1@, manager.num_levels_spec(), views(values.0@), values.1@);
 }
+/// R11 helper (trusted): the irrefutable slice pattern `Some(([h], []))`
+#[verifier::external_body]
+pub fn cache_get1<E: Edge>(r: Option<([E; 1], [u32; 0])>) -> (o: Option<E>)
+    ensures r is Some <==> o is Some, o is Some ==> o->Some_0.view() == r->Some_0.0@[0].view(),
+{ match r { Some(([h], [])) => Some(h), None => None } }
 pub trait HasApplyCache<M: Manager, O: CacheOp> {
     type ApplyCache: ApplyCache<M, O>;
     fn apply_cache(&self) -> &Self::ApplyCache;
@@ -412,6 +595,16 @@ impl vstd::std_specs::ops::NotSpecImpl for BDDTerminal {
 }
 impl TermView for BDDTerminal { open spec fn tview(&self) -> bool { *self == BDDTerminal::True } }
 
+//@item file=crates/oxidd-core/src/function.rs path=enum:BooleanOperator attrs="#[derive(Clone, Copy, PartialEq, Eq, Structural)]" vis=pub
+//@end
+/// operator number of a `BooleanOperator` (by name)
+pub open spec fn bo_code(op: BooleanOperator) -> u8 {
+    match op {
+        BooleanOperator::And => BDDOp::And as u8, BooleanOperator::Or => BDDOp::Or as u8, BooleanOperator::Xor => BDDOp::Xor as u8,
+        BooleanOperator::Equiv => BDDOp::Equiv as u8, BooleanOperator::Nand => BDDOp::Nand as u8, BooleanOperator::Nor => BDDOp::Nor as u8,
+        BooleanOperator::Imp => BDDOp::Imp as u8, BooleanOperator::ImpStrict => BDDOp::ImpStrict as u8,
+    }
+}
 // ---------- per-operator cache invariants (the meaning of a cache key) ----------
 pub open spec fn res_top_ok2(r: Tree, a: Tree, b: Tree) -> bool { top(r) >= top(a) || top(r) >= top(b) }
 pub open spec fn not_post(f: Tree, n: int, r: Tree) -> bool {
@@ -434,7 +627,13 @@ impl CacheOp for BDDOp {
         else if o == BDDOp::Forall as u8 { operands.len() == 2 && quant_post(BDDOp::And as u8, operands[0], operands[1], n, res) }
         else if o == BDDOp::Exists as u8 { operands.len() == 2 && quant_post(BDDOp::Or as u8, operands[0], operands[1], n, res) }
         else if o == BDDOp::Unique as u8 { operands.len() == 2 && quant_post(BDDOp::Xor as u8, operands[0], operands[1], n, res) }
+        else if aq_decode(o) is Some { operands.len() == 3 && apply_quant_post(aq_decode(o)->Some_0.0, aq_decode(o)->Some_0.1, operands[0], operands[1], operands[2], n, res) }
         else { false }
+    }
+    open spec fn inv_ext(self, operands: Seq<Tree>, nums: Seq<u32>, n: int, res: Seq<Tree>, res_nums: Seq<u32>) -> bool {
+        if self as u8 == BDDOp::Substitute as u8 {
+            operands.len() == 1 && nums.len() == 1 && res.len() == 1 && res_nums.len() == 0 && subst_post(operands[0], subst_of(nums[0]), n, res[0])
+        } else { false }
     }
 }
 
@@ -468,6 +667,13 @@ broadcast use leaf_lemmas;
         && res->Ok_0.view() == (if t.view() == e.view() { t.view() } else { mk(level, t.view(), e.view()) })
         && forall|env: Env| #[trigger] sem(res->Ok_0.view(), env) == (if env(level as int) { sem(t.view(), env) } else { sem(e.view(), env) }),
 //@end
+impl BDDOp {
+//@fn file=crates/oxidd-rules-bdd/src/simple/mod.rs path=impl:BDDOp~(?={)/fn:from_apply_quant props=C04,C06
+//@spec
+    requires is_q(q), is_bin(op),
+    ensures aq_decode(res as u8) == Some((q, op)),
+//@end
+}
 //@fn file=crates/oxidd-rules-bdd/src/simple/mod.rs path=fn:collect_children mode=stub ret=r
 //@spec
     ensures r.0.view() == node.then_spec(), r.1.view() == node.else_spec(),
@@ -475,7 +681,7 @@ broadcast use leaf_lemmas;
 
 mod apply_rec {
 use super::*;
-broadcast use {leaf_lemmas, quant_lemmas, restrict_lemmas};
+broadcast use {leaf_lemmas, quant_lemmas, quant2_lemmas, restrict_lemmas, subst_lemmas};
 //@fn file=crates/oxidd-rules-bdd/src/simple/apply_rec.rs path=fn:apply_not nodecr expect=R5:1 props=C02,C06
 //@spec
     requires edge_ok::<M::Edge>(), ok(f.view(), manager.num_levels_spec()),
@@ -504,7 +710,7 @@ broadcast use {leaf_lemmas, quant_lemmas, restrict_lemmas};
             f2.view() == mk(fn2.level_spec(), fn2.then_spec(), fn2.else_spec())
             && ok(f2.view(), manager.num_levels_spec()) && ok(v2.view(), manager.num_levels_spec())
             && is_inner(v2.view()) && top(v2.view()) > top(f2.view()) && top(f2.view()) >= top(f.view())
-            && forall|env: Env| #[trigger] sem(f2.view(), cenv(v2.view(), env)) == sem(f.view(), cenv(vars.view(), env)),
+            && forall|env: Env| sem(f2.view(), cenv(v2.view(), env)) == #[trigger] sem(f.view(), cenv(vars.view(), env)),
     },
     decreases f.view(), vars.view(),
 //@end
@@ -517,6 +723,78 @@ broadcast use {leaf_lemmas, quant_lemmas, restrict_lemmas};
 //@spec
     requires is_q(Q), edge_ok::<M::Edge>(), ok(f.view(), manager.num_levels_spec()), ok(vars.view(), manager.num_levels_spec()),
     ensures res is Ok ==> quant_post(Q, f.view(), vars.view(), manager.num_levels_spec(), res->Ok_0.view()),
+//@end
+//@fn file=crates/oxidd-rules-bdd/src/simple/apply_rec.rs path=fn:apply_quant nodecr expect=R5:1,R12:1 props=C04,C06 cases=Q:BDDOp::And~as~u8,BDDOp::Or~as~u8,BDDOp::Xor~as~u8
+//@spec
+    requires is_q(Q), is_bin(OP), edge_ok::<M::Edge>(), ok(f.view(), manager.num_levels_spec()), ok(g.view(), manager.num_levels_spec()), ok(vars.view(), manager.num_levels_spec()),
+    ensures res is Ok ==> apply_quant_post(Q, OP, f.view(), g.view(), vars.view(), manager.num_levels_spec(), res->Ok_0.view()),
+//@end
+//@fn file=crates/oxidd-rules-bdd/src/simple/apply_rec.rs path=fn:apply_quant_dispatch props=C04
+//@spec
+    requires is_q(Q), edge_ok::<M::Edge>(), ok(f.view(), manager.num_levels_spec()), ok(g.view(), manager.num_levels_spec()), ok(vars.view(), manager.num_levels_spec()),
+    ensures res is Ok ==> apply_quant_post(Q, bo_code(op), f.view(), g.view(), vars.view(), manager.num_levels_spec(), res->Ok_0.view()),
+//@end
+//@fn file=crates/oxidd-rules-bdd/src/simple/apply_rec.rs path=fn:substitute nodecr expect=R5:1,R11:1 props=C04,C06
+//@spec
+    requires edge_ok::<M::Edge>(), ok(f.view(), manager.num_levels_spec()), all_ok(subst@, manager.num_levels_spec()),
+        eviews(subst@) == subst_of(cache_id),
+    ensures res is Ok ==> subst_post(f.view(), eviews(subst@), manager.num_levels_spec(), res->Ok_0.view()),
+//@end
+//@fn file=crates/oxidd-rules-bdd/src/simple/apply_rec.rs path=impl:BooleanFunctionQuant~for~BDDFunction<F>/fn:forall_edge props=C04
+//@header
+fn forall_edge<M>(manager: &M, root: &M::Edge, vars: &M::Edge) -> (res: AllocResult<M::Edge>)
+where M: Manager<Terminal = BDDTerminal> + HasApplyCache<M, BDDOp>, M::InnerNode: HasLevel,
+//@spec
+    requires edge_ok::<M::Edge>(), ok(root.view(), manager.num_levels_spec()), ok(vars.view(), manager.num_levels_spec()),
+    ensures res is Ok ==> quant_post(BDDOp::And as u8, root.view(), vars.view(), manager.num_levels_spec(), res->Ok_0.view()),
+//@end
+//@fn file=crates/oxidd-rules-bdd/src/simple/apply_rec.rs path=impl:BooleanFunctionQuant~for~BDDFunction<F>/fn:apply_forall_edge props=C04
+//@header
+fn apply_forall_edge<M>(manager: &M, op: BooleanOperator, lhs: &M::Edge, rhs: &M::Edge, vars: &M::Edge) -> (res: AllocResult<M::Edge>)
+where M: Manager<Terminal = BDDTerminal> + HasApplyCache<M, BDDOp>, M::InnerNode: HasLevel,
+//@spec
+    requires edge_ok::<M::Edge>(), ok(lhs.view(), manager.num_levels_spec()), ok(rhs.view(), manager.num_levels_spec()), ok(vars.view(), manager.num_levels_spec()),
+    ensures res is Ok ==> apply_quant_post(BDDOp::And as u8, bo_code(op), lhs.view(), rhs.view(), vars.view(), manager.num_levels_spec(), res->Ok_0.view()),
+//@end
+//@fn file=crates/oxidd-rules-bdd/src/simple/apply_rec.rs path=impl:BooleanFunctionQuant~for~BDDFunction<F>/fn:exists_edge props=C04
+//@header
+fn exists_edge<M>(manager: &M, root: &M::Edge, vars: &M::Edge) -> (res: AllocResult<M::Edge>)
+where M: Manager<Terminal = BDDTerminal> + HasApplyCache<M, BDDOp>, M::InnerNode: HasLevel,
+//@spec
+    requires edge_ok::<M::Edge>(), ok(root.view(), manager.num_levels_spec()), ok(vars.view(), manager.num_levels_spec()),
+    ensures res is Ok ==> quant_post(BDDOp::Or as u8, root.view(), vars.view(), manager.num_levels_spec(), res->Ok_0.view()),
+//@end
+//@fn file=crates/oxidd-rules-bdd/src/simple/apply_rec.rs path=impl:BooleanFunctionQuant~for~BDDFunction<F>/fn:apply_exists_edge props=C04
+//@header
+fn apply_exists_edge<M>(manager: &M, op: BooleanOperator, lhs: &M::Edge, rhs: &M::Edge, vars: &M::Edge) -> (res: AllocResult<M::Edge>)
+where M: Manager<Terminal = BDDTerminal> + HasApplyCache<M, BDDOp>, M::InnerNode: HasLevel,
+//@spec
+    requires edge_ok::<M::Edge>(), ok(lhs.view(), manager.num_levels_spec()), ok(rhs.view(), manager.num_levels_spec()), ok(vars.view(), manager.num_levels_spec()),
+    ensures res is Ok ==> apply_quant_post(BDDOp::Or as u8, bo_code(op), lhs.view(), rhs.view(), vars.view(), manager.num_levels_spec(), res->Ok_0.view()),
+//@end
+//@fn file=crates/oxidd-rules-bdd/src/simple/apply_rec.rs path=impl:BooleanFunctionQuant~for~BDDFunction<F>/fn:unique_edge props=C04
+//@header
+fn unique_edge<M>(manager: &M, root: &M::Edge, vars: &M::Edge) -> (res: AllocResult<M::Edge>)
+where M: Manager<Terminal = BDDTerminal> + HasApplyCache<M, BDDOp>, M::InnerNode: HasLevel,
+//@spec
+    requires edge_ok::<M::Edge>(), ok(root.view(), manager.num_levels_spec()), ok(vars.view(), manager.num_levels_spec()),
+    ensures res is Ok ==> quant_post(BDDOp::Xor as u8, root.view(), vars.view(), manager.num_levels_spec(), res->Ok_0.view()),
+//@end
+//@fn file=crates/oxidd-rules-bdd/src/simple/apply_rec.rs path=impl:BooleanFunctionQuant~for~BDDFunction<F>/fn:apply_unique_edge props=C04
+//@header
+fn apply_unique_edge<M>(manager: &M, op: BooleanOperator, lhs: &M::Edge, rhs: &M::Edge, vars: &M::Edge) -> (res: AllocResult<M::Edge>)
+where M: Manager<Terminal = BDDTerminal> + HasApplyCache<M, BDDOp>, M::InnerNode: HasLevel,
+//@spec
+    requires edge_ok::<M::Edge>(), ok(lhs.view(), manager.num_levels_spec()), ok(rhs.view(), manager.num_levels_spec()), ok(vars.view(), manager.num_levels_spec()),
+    ensures res is Ok ==> apply_quant_post(BDDOp::Xor as u8, bo_code(op), lhs.view(), rhs.view(), vars.view(), manager.num_levels_spec(), res->Ok_0.view()),
+//@end
+//@fn file=crates/oxidd-rules-bdd/src/simple/apply_rec.rs path=impl:BooleanFunction~for~BDDFunction<F>/fn:restrict_edge props=C04
+//@header
+fn restrict_edge<M>(manager: &M, root: &M::Edge, vars: &M::Edge) -> (res: AllocResult<M::Edge>)
+where M: Manager<Terminal = BDDTerminal> + HasApplyCache<M, BDDOp>, M::InnerNode: HasLevel,
+//@spec
+    requires edge_ok::<M::Edge>(), ok(root.view(), manager.num_levels_spec()), ok(vars.view(), manager.num_levels_spec()),
+    ensures res is Ok ==> restrict_post(root.view(), vars.view(), manager.num_levels_spec(), res->Ok_0.view()),
 //@end
 //@fn file=crates/oxidd-rules-bdd/src/simple/apply_rec.rs path=impl:BooleanFunction~for~BDDFunction<F>/fn:and_edge props=C02
 //@header
